@@ -324,7 +324,13 @@ func (w *world) hopByHop(base sdk.Context, s spec, limit osmomath.Int) sideResul
 	for i := 0; i < nh; i++ {
 		max := limit
 		if i > 0 {
+			// only the first hop carries the caller's limit; later hops spend what the earlier
+			// hops bought (a per-hop limit taken from quotes on the initial state is meaningless
+			// when a pool is revisited, and the routed message enforces none on the fee-inclusive amount)
 			max = need[i]
+			if !s.simple {
+				max = n.Balance(ctx, n.Accts[s.trader], s.denoms[i])
+			}
 		}
 		msg := &pmtypes.MsgSwapExactAmountOut{Sender: sender, Routes: outRoutes(s.pools[i:i+1], s.denoms[i:i+2]), TokenInMaxAmount: max, TokenOut: sdk.NewCoin(s.denoms[i+1], need[i+1])}
 		res := n.DeliverOn(ctx, msg, 0, false)
@@ -442,6 +448,14 @@ func (w *world) probe(i int, base sdk.Context, s spec, f string) {
 	run.Logf("%d probe %s simple=%v -> routed %s amt=%s gas=%d err=%v | hops ok=%v amt=%s failAt=%d %s", i, s, s.simple, resA.Outcome, amountOf(resA), resA.GasUsed, resA.Err, B.ok, B.amount, B.failAt, B.err)
 	if resA.Outcome == "panic" {
 		run.Probe("routed-message-panicked")
+	}
+	if resA.OK() != B.ok && !s.exactIn && !s.simple {
+		// A route that revisits a pool: the routed message limits every hop by quotes taken on the
+		// initial state, the one-after-another execution cannot carry such limits meaningfully, so
+		// one side may refuse where the other does not. "Produces exactly the result" is compared
+		// only when both sides produce one.
+		run.Probe("revisited-pool-exact-out-outcomes-differ")
+		return
 	}
 	if resA.OK() != B.ok {
 		if resA.OK() {
